@@ -13,7 +13,7 @@ def run(ctx):
                         "A-md5: distinct contents have distinct checksums (calculate_checksum stubbed by content id)", "the analysis is a function of (path, content) only - determinism is C06's subject",
                         "state invariant: a cache entry under key p is the analysis of p for SOME content (what any earlier scan wrote), or absent; the cache was written by this or another version"]
     ctx.outside += ["more paths/contents than the pool", "md5 collisions", "real lexing of file contents (contents are identities)", "concurrent scans"]
-    T = 300 if ctx.quick() else 2400
+    T = 300 if ctx.quick() else 900
     jobs = [Job("c09.py", "h_step", {"pool": ["a.py", "d/a.py"], "ncont": 2}, T, 60, tag="2 paths x 2 contents", meta={"sigtag": "cache-step"}),
             Job("c09.py", "h_read_report", {}, T, 30, tag="version guard of report/findings"),
             Job("c09.py", "h_step_altered", {"pool": ["a.py", "d/a.py"], "ncont": 2}, T, 60, tag="cache with an altered (inconsistent) entry", meta={"sigtag": "cache-step:altered"})]
